@@ -375,6 +375,7 @@ pub fn property_c24(_ctx: &Ctx) -> Property {
         assumptions: &["indexes inside a multi-unit character are not asserted", "GraphemeCluster: a cluster spanning several elements is a known finding"],
         subs: vec![
             sub::<Program, _, _>("text", 6000, 150000, |c| program_strategy(TEXT, if c.thorough() { 100 } else { 40 }, 3, 4), check_c24),
+            sub::<Program, _, _>("text-conflict", 3000, 80000, |c| program_strategy(TEXT_CONFLICT, if c.thorough() { 100 } else { 40 }, 3, 4), check_c24),
             sub::<Program, _, _>("full", 2000, 60000, |c| program_strategy(FULL, if c.thorough() { 100 } else { 40 }, 3, 4), check_c24),
         ],
     }
